@@ -9,6 +9,11 @@ Cases
   (xreftable bytes)                Model/Xref.v xref_and_trailer_table vs the table parser inside load_mem
   (objstm dict content)            Model/ObjStm.v objstm_new          vs  ObjectStream::new
   (asset name)                     the files of /repo/assets load
+  (loadz BYTES (ids) <expected>)   files written HERE the way present-day producers write them: object streams of 3..200 near-identical
+                                   objects and the cross-reference stream compressed by a real deflate encoder (Python zlib, level 1/6/9,
+                                   fixed / dynamic Huffman codes, several blocks; 5:1 .. 100:1), Predictor 12 on the cross-reference
+                                   stream; expected content computed here; model side: LoaderExt.load_ext on the Gallina inflate
+  (objstmz dict BYTES n)           such an object stream alone: ObjectStream::new must answer its n members
 """
 import os, re
 import propcheck, vlib
@@ -791,6 +796,310 @@ def gen_ahx(rng):
 
 
 # ------------------------------------------------------------------------------------------------
+# files as present-day producers write them: REAL deflate (seeded C02/p1).  The reference writer's Flate encoder writes
+# stored blocks (its output is never shorter than its input); here the structural streams -- object streams of 3..200
+# near-identical objects (annotations, font descriptors, pages, structure elements, widths arrays, strings, numbers) and the
+# cross-reference stream, with and without the PNG Up predictor every producer applies to it -- are compressed by zlib at level
+# 1 / 6 / 9 with fixed or dynamic Huffman codes, one or several deflate blocks: 5:1 .. 100:1.  The expected content is computed
+# here from the same values; the model side reads the file with LoaderExt.load_ext on the Gallina inflate (Spec/Inflate.v).
+# ------------------------------------------------------------------------------------------------
+import zlib
+
+
+def XB(b):
+    """a long bytes argument as a list of atoms of at most 256 bytes (Base/Sx.v reads one atom in quadratic time)"""
+    b = bytes(b)
+    if len(b) <= 256:
+        return xb(b)
+    return L(*[xb(b[i:i + 256]) for i in range(0, len(b), 256)])
+
+
+REGULAR = set(range(33, 127)) - set(b'()<>[]{}/%')
+
+
+def v_tokens(v):
+    t = v[0]
+    if t == 'i':
+        return [b'%d' % v[1]]
+    if t == 'r':
+        return [v[1].encode()]
+    if t == 'n':
+        return [b'/' + v[1]]
+    if t == 's':
+        return [b'(' + v[1].replace(b'\\', b'\\\\').replace(b'(', b'\\(').replace(b')', b'\\)').replace(b'\r', b'\\r') + b')']
+    if t == 'h':
+        return [b'<' + v[1].hex().encode() + b'>']
+    if t == 'ref':
+        return [b'%d' % v[1], b'%d' % v[2], b'R']
+    if t == 'b':
+        return [b'true' if v[1] else b'false']
+    if t == 'null':
+        return [b'null']
+    if t == 'a':
+        return [b'['] + [tok for x in v[1] for tok in v_tokens(x)] + [b']']
+    if t == 'd':
+        return [b'<<'] + [tok for k, x in v[1] for tok in [b'/' + k] + v_tokens(x)] + [b'>>']
+    raise ValueError(t)
+
+
+def v_pdf(v, sep=b' ', tight=True):
+    """tight: a separator only where two regular characters would meet"""
+    out = b''
+    for tok in v_tokens(v):
+        if out and ((out[-1] in REGULAR and tok[0] in REGULAR) or not tight):
+            out += sep
+        out += tok
+    return out
+
+
+def v_sx(v):
+    t = v[0]
+    if t == 'i':
+        return I(v[1])
+    if t == 'r':
+        return R(v[1])
+    if t == 'n':
+        return N(v[1])
+    if t in ('s', 'h'):
+        return S(v[1])
+    if t == 'ref':
+        return REF(v[1], v[2])
+    if t == 'b':
+        return B(v[1])
+    if t == 'null':
+        return NULL
+    if t == 'a':
+        return A([v_sx(x) for x in v[1]])
+    if t == 'd':
+        return D([(k, v_sx(x)) for k, x in v[1]])
+    raise ValueError(t)
+
+
+def vi(n): return ('i', n)
+def vn(n): return ('n', n)
+def vref(n, g=0): return ('ref', n, g)
+def va(*xs): return ('a', list(xs))
+def vd(*kv): return ('d', list(kv))
+
+
+def z_templates(rng):
+    """a family of near-identical objects: returns f(i) -> value"""
+    k = rng.choice(['annot', 'fontdesc', 'page', 'struct', 'widths', 'string', 'hexstring', 'number', 'dest', 'outline', 'mixed'])
+    a, b = rng.randint(1, 400), rng.randint(1, 400)
+    uri = rng.choice([b'http://example.org/', b'https://www.example.com/a/rather/long/path/to/a/document.html#section-', b'mailto:someone@example.org?subject='])
+    if k == 'annot':
+        return k, lambda i: vd((b'Type', vn(b'Annot')), (b'Subtype', vn(b'Link')), (b'Border', va(vi(0), vi(0), vi(0))),
+                               (b'Rect', va(vi(a), vi(b + 14 * (i % 50)), vi(a + 120), vi(b + 14 * (i % 50) + 12))),
+                               (b'A', vd((b'S', vn(b'URI')), (b'URI', ('s', uri + b'%d' % i)))), (b'P', vref(2)))
+    if k == 'fontdesc':
+        return k, lambda i: vd((b'Type', vn(b'FontDescriptor')), (b'FontName', vn(b'ABCDEF+Font%d' % i)), (b'Flags', vi(32)),
+                               (b'FontBBox', va(vi(-100), vi(-200), vi(1000), vi(900))), (b'ItalicAngle', vi(0)), (b'Ascent', vi(900)),
+                               (b'Descent', vi(-200)), (b'CapHeight', vi(700)), (b'StemV', vi(80)), (b'MissingWidth', ('r', '500.5')))
+    if k == 'page':
+        return k, lambda i: vd((b'Type', vn(b'Page')), (b'Parent', vref(2)), (b'MediaBox', va(vi(0), vi(0), vi(612), vi(792))),
+                               (b'Resources', vd((b'Font', vd((b'F1', vref(a + 500)))), (b'ProcSet', va(vn(b'PDF'), vn(b'Text'))))),
+                               (b'Contents', vref(1000 + i)), (b'Rotate', vi(0)), (b'Tabs', vn(b'S')))
+    if k == 'struct':
+        return k, lambda i: vd((b'Type', vn(b'StructElem')), (b'S', vn(rng.choice([b'P', b'P', b'P', b'Span']))), (b'P', vref(a + 600)),
+                               (b'Pg', vref(b + 700)), (b'K', vi(i)))
+    if k == 'widths':
+        cnt = rng.choice([40, 40, 150])
+        return k, lambda i: va(*([vi(500)] * cnt + [vi(i)]))
+    if k == 'string':
+        return k, lambda i: ('s', b'Lorem ipsum dolor sit amet, consectetur adipiscing elit %d (sed do) eiusmod \\ tempor' % i)
+    if k == 'hexstring':
+        return k, lambda i: ('h', b'\xfe\xff' + ''.join('Title %d' % i).encode('utf-16-be'))
+    if k == 'number':
+        return k, lambda i: vi(100000 + i)
+    if k == 'dest':
+        return k, lambda i: va(vref(a + i), vn(b'XYZ'), vi(72), vi(720), ('null',))
+    if k == 'outline':
+        return k, lambda i: vd((b'Title', ('s', b'Chapter %d' % i)), (b'Parent', vref(a + 800)), (b'Prev', vref(a + 801 + i)),
+                               (b'Next', vref(a + 803 + i)), (b'Dest', va(vref(b + 900), vn(b'Fit'))), (b'C', va(('r', '0.5'), vi(0), vi(0))),
+                               (b'F', vi(0)), (b'Open', ('b', False)))
+    f1, f2 = z_templates(rng)[1], z_templates(rng)[1]
+    return k, lambda i: (f1 if i % 2 else f2)(i)
+
+
+def z_deflate(rng, data):
+    """a zlib stream for [data] from a real encoder: level 1 / 6 / 9 (dynamic Huffman codes), Z_FIXED (fixed codes), Z_RLE,
+    Z_HUFFMAN_ONLY, small windows, several blocks (Z_FULL_FLUSH / Z_SYNC_FLUSH in the middle: an empty stored block)"""
+    m = rng.random()
+    if m < 0.45:
+        return zlib.compress(data, rng.choice([1, 6, 6, 9, 9]))
+    level = rng.choice([1, 6, 9])
+    wbits = rng.choice([15, 15, 12, 9])
+    strategy = rng.choice([zlib.Z_DEFAULT_STRATEGY] * 5 + [zlib.Z_FIXED, zlib.Z_FIXED, zlib.Z_RLE, zlib.Z_FILTERED, zlib.Z_HUFFMAN_ONLY])
+    c = zlib.compressobj(level, zlib.DEFLATED, wbits, rng.choice([9, 8, 1]), strategy)
+    out = b''
+    cuts = sorted(rng.sample(range(len(data) + 1), min(len(data), rng.choice([0, 0, 1, 3]))))
+    pos = 0
+    for cut in cuts:
+        out += c.compress(data[pos:cut]) + c.flush(rng.choice([zlib.Z_FULL_FLUSH, zlib.Z_SYNC_FLUSH]))
+        pos = cut
+    return out + c.compress(data[pos:]) + c.flush()
+
+
+def z_filter_entries(rng, parms=None):
+    ents = [(b'Filter', vn(b'FlateDecode') if rng.random() < 0.7 else va(vn(b'FlateDecode')))]
+    if parms:
+        ents.append((b'DecodeParms', parms))
+    return ents
+
+
+def z_objstm(rng, members, spell):
+    """members: (num, value).  Returns (container dictionary entries, compressed data, plain length)"""
+    isep = rng.choice([b' ', b' ', b'\n'])
+    msep = rng.choice([b'\n', b' ', b'\r\n', b'\r'])
+    idx, body = b'', b''
+    for num, v in members:
+        idx += b'%d%s%d%s' % (num, isep, len(body), isep)
+        body += spell(v) + msep
+    if rng.random() < 0.3:
+        idx = idx[:-1] + rng.choice([b'\n', b'\r\n', b'  '])
+    plain = idx + body
+    data = z_deflate(rng, plain)
+    ents = [(b'Type', vn(b'ObjStm')), (b'N', vi(len(members))), (b'First', vi(len(idx)))] + z_filter_entries(rng) + [(b'Length', vi(len(data)))]
+    return ents, data, len(plain)
+
+
+def z_members(rng, n, first_num):
+    _, f = z_templates(rng)
+    stride = rng.choice([1, 1, 1, 2])
+    return [(first_num + stride * i, f(i)) for i in range(n)]
+
+
+def gen_objstmz(rng):
+    n = rng.choice([3, 20, 40, 60, 60, 90, 120, 200])
+    members = z_members(rng, n, rng.randint(1, 50))
+    sep = rng.choice([b' ', b' ', b'\n'])
+    tight = rng.random() < 0.7
+    ents, data, plain_len = z_objstm(rng, members, lambda v: v_pdf(v, sep, tight))
+    if rng.random() < 0.5:
+        ents = [e for e in ents if e[0] != b'Length']
+    ratio = plain_len / len(data)
+    tags = {'kind': 'objstmz-r%s' % ('lt4' if ratio < 4 else '4to8' if ratio < 8 else '8to20' if ratio < 20 else 'gt20'), 'nontrivial': True}
+    return L('objstmz', D([(k, v_sx(v)) for k, v in ents]), XB(data), str(len(dict(members)))), tags
+
+
+def gen_zfile(rng):
+    """a whole file: catalog, pages and a few streams as plain objects, 0..3 Flate-compressed object streams of near-identical
+    members, a Flate-compressed cross-reference stream (W [1 n m], with or without Predictor 12, Index written or not)"""
+    sep = rng.choice([b' ', b' ', b'\n'])
+    tight = rng.random() < 0.7
+    spell = lambda v: v_pdf(v, sep, tight)
+    eol = rng.choice([b'\n', b'\n', b'\r\n', b'\r'])
+    shape = rng.choice(['objstm', 'objstm', 'objstm', 'toponly', 'small'])
+    tops = {1: vd((b'Type', vn(b'Catalog')), (b'Pages', vref(2))), 2: vd((b'Type', vn(b'Pages')), (b'Kids', va()), (b'Count', vi(0)))}
+    streams = {}
+    nxt = 3
+    for _ in range(rng.choice([0, 1, 2])):
+        content = rng.choice([b'BT /F1 12 Tf 72 720 Td (Hello) Tj ET\n' * rng.choice([1, 30]), b'q 1 0 0 1 0 0 cm Q\n' * 50, b''])
+        if rng.random() < 0.6 and content:
+            content = zlib.compress(content, 9)
+            streams[nxt] = ([(b'Filter', vn(b'FlateDecode')), (b'Length', vi(len(content)))], content)
+        else:
+            streams[nxt] = ([(b'Length', vi(len(content)))], content)
+        nxt += 1
+    ostms = []     # (container number, members)
+    ratios = []
+    if shape == 'toponly':
+        for num, v in z_members(rng, rng.choice([40, 80, 150]), nxt):
+            tops[num] = v
+    else:
+        for _ in range(rng.choice([1, 1, 2, 3])):
+            n = rng.choice([3, 3]) if shape == 'small' else rng.choice([20, 40, 60, 60, 90, 120, 200])
+            ms = z_members(rng, n, nxt)
+            nxt = max(m[0] for m in ms) + 1
+            ostms.append((nxt, ms))
+            nxt += 1
+    used = set(tops) | set(streams) | set(c for c, _ in ostms) | set(m[0] for _, ms in ostms for m in ms)
+    xid = max(used) + 1 + rng.choice([0, 0, 3])
+    out = bytearray(b'%PDF-' + rng.choice([b'1.5', b'1.6', b'1.7', b'2.0']) + eol)
+    version = bytes(out[5:8])
+    if rng.random() < 0.7:
+        out += b'%\xe2\xe3\xcf\xd3' + eol
+    offs, comp = {}, {}
+    order = sorted(tops) + sorted(streams)
+    body_objs = [(n, 'top') for n in sorted(tops)] + [(n, 'stream') for n in sorted(streams)] + [(c, 'ostm') for c, _ in ostms]
+    if rng.random() < 0.4:
+        rng.shuffle(body_objs)
+    for num, what in body_objs:
+        offs[num] = len(out)
+        out += b'%d 0 obj' % num + eol
+        if what == 'top':
+            out += spell(tops[num]) + eol
+        else:
+            if what == 'stream':
+                ents, data = streams[num]
+            else:
+                ms = dict(ostms)[num]
+                ents, data, plain_len = z_objstm(rng, ms, spell)
+                ratios.append(plain_len / len(data))
+                for i, (m, _) in enumerate(ms):
+                    comp[m] = (num, i)
+            out += spell(('d', ents)) + eol + b'stream' + rng.choice([b'\n', b'\r\n']) + data + rng.choice([b'', eol]) + b'endstream' + eol
+        out += b'endobj' + eol
+    # the cross-reference stream
+    offs[xid] = len(out)
+    size = xid + 1
+    w1 = max(rng.choice([2, 3, 4, 4]), (max(len(out), xid).bit_length() + 7) // 8)
+    w2 = rng.choice([1, 2, 2])
+    rows, idx = [], []
+    listed = sorted(set(offs) | set(comp) | {0})
+    full = rng.random() < 0.6
+    nums = list(range(size)) if full else listed
+    for n in nums:
+        if n in offs:
+            rows.append(b'\x01' + offs[n].to_bytes(w1, 'big') + bytes(w2))
+        elif n in comp:
+            rows.append(b'\x02' + comp[n][0].to_bytes(w1, 'big') + comp[n][1].to_bytes(w2, 'big'))
+        else:
+            rows.append(b'\x00' + bytes(w1) + (b'\xff' * w2 if n == 0 else bytes(w2)))
+        if idx and idx[-1][0] + idx[-1][1] == n:
+            idx[-1][1] += 1
+        else:
+            idx.append([n, 1])
+    width = 1 + w1 + w2
+    raw = b''.join(rows)
+    parms = None
+    if rng.random() < 0.6:
+        prev = bytes(width)
+        pr = b''
+        for r in rows:
+            pr += b'\x02' + bytes((x - y) % 256 for x, y in zip(r, prev))
+            prev = r
+        raw = pr
+        parms = vd((b'Columns', vi(width)), (b'Predictor', vi(12)))
+    xdata = z_deflate(rng, raw)
+    trailer = [(b'Root', vref(1))]
+    if rng.random() < 0.5:
+        trailer.append((b'Info', vref(rng.choice(sorted(tops)))))
+    if rng.random() < 0.5:
+        i1, i2 = bytes(rng.getrandbits(8) for _ in range(16)), bytes(rng.getrandbits(8) for _ in range(16))
+        trailer.append((b'ID', va(('h', i1), ('h', i2))))
+    xents = [(b'Type', vn(b'XRef')), (b'Size', vi(size)), (b'W', va(vi(1), vi(w1), vi(w2)))]
+    if not (full and rng.random() < 0.7):
+        xents.append((b'Index', va(*[vi(x) for p in idx for x in p])))
+    xents += trailer + z_filter_entries(rng, parms) + [(b'Length', vi(len(xdata)))]
+    out += b'%d 0 obj' % xid + eol + spell(('d', xents)) + eol + b'stream' + rng.choice([b'\n', b'\r\n']) + xdata + eol + b'endstream' + eol + b'endobj' + eol
+    out += b'startxref' + eol + b'%d' % offs[xid] + eol + b'%%EOF' + rng.choice([b'', eol])
+    # what the file defines
+    objs = dict((n, v_sx(v)) for n, v in tops.items())
+    for n, (ents, data) in streams.items():
+        objs[n] = L('st', D([(k, v_sx(v)) for k, v in ents]), xb(data))
+    for _, ms in ostms:
+        for n, v in ms:
+            objs[n] = v_sx(v)
+    tr = sorted(trailer + [(b'Size', vi(size))])
+    expected = L('loaded', xb(version), D([(k, v_sx(v)) for k, v in tr]), L('objs', *[L(OID(n, 0), objs[n]) for n in sorted(objs)]))
+    ignore = [c for c, _ in ostms] + [xid]
+    r = min(ratios) if ratios else 0
+    kind = 'loadz-%s%s%s' % (shape, '-pred' if parms else '', ('-r%s' % ('lt4' if r < 4 else '4to8' if r < 8 else '8to20' if r < 20 else 'gt20')) if ratios else '')
+    return L('loadz', XB(bytes(out)), L(*[str(i) for i in ignore]), expected), {'kind': kind, 'ignore': ignore, 'nontrivial': True}
+
+
+# ------------------------------------------------------------------------------------------------
 def stage1(write_cases):
     """run the extracted reference writer; returns load cases"""
     runner, log = vlib.build_runner('c02')
@@ -836,6 +1145,10 @@ def gen_cases(rng, tier):
         cases.append(gen_objstm_overlap(rng))
     for _ in range(m // 2):
         cases.append(gen_ahx(rng))
+    for _ in range(40 if tier == 'quick' else 1200):
+        cases.append(gen_zfile(rng))
+    for _ in range(30 if tier == 'quick' else 900):
+        cases.append(gen_objstmz(rng))
     return cases
 
 
@@ -877,7 +1190,10 @@ SPEC = {
             'streams, junk before the header; cross-reference streams that do not list object 0 with W [0 n m] / W [0 n 0]; files of 2-3 '
             'parts whose cross-reference sections (tables, streams, mixed) are linked by Prev, with disjoint object sets, objects listed '
             'again at the same offset and superseded definitions in earlier parts; '
-            'bytes come from the extracted reference writer and go to Document::load_mem; plus the asset '
+            'bytes come from the extracted reference writer and go to Document::load_mem; plus files in the layout of present-day '
+            'producers whose object streams (3-200 near-identical dictionaries / arrays / strings) and cross-reference stream (with and '
+            'without Predictor 12) are compressed by a real deflate encoder (zlib level 1/6/9, fixed and dynamic Huffman codes, several '
+            'blocks, 5:1 to 100:1), read by the implementation and by the loader model on the Gallina inflate; plus the asset '
             'files; plus valid and malformed inputs for decode_xref_stream, the xref table parser and ObjectStream::new against their models; '
             'non-trivial = the reference writer produced a file / every direct case; distinct = distinct case text',
     'extra_trusted': ['C02: the reference writer coq/Spec/RefWriter.v is the specification of "a syntactically valid PDF file" (written from '
